@@ -30,6 +30,8 @@ def env_sched_c01():
     # deliberately NOT on the dyadic grid: 0.1 + 0.2 = 0.30000000000000004 > 0.3 (times that differ by float noise)
     s.append((0.1, 1, F, 'follow', 0.2))
     s.append((0.3, 2, LP, 'log', 0))
+    # an event that carries the id -1, which the library itself uses for TERMINATE and the resource manager's checks
+    s.append((1, -1, F, 'log', 0))
     return s
 
 
@@ -55,7 +57,7 @@ class C01(Check):
     rule = ('every sequence of <=D operations (D=4 quick, 5 thorough) on a real Environment from the alphabet '
             '{schedule(dt in 0/1/2.5, asset 1/2, priority FAIL / FAIL+0.5 / PASS_PART / 1.5, action that logs / schedules '
             'a follow-up / pauses, resumes, cancels another asset / schedules in the past -- all from INSIDE the action), '
-            'pause/unpause/cancel(asset), schedule-in-the-past, step with every tie-break choice, run(1), run(2.5) with '
+            'pause/unpause/cancel(asset), schedule-in-the-past, step with every tie-break choice, run(0), run(1), run(2.5) with '
             'every tie-break choice inside (free of depth)} plus one pair of times that differ only by float rounding '
             '(0.1+0.2 vs 0.3); every fork-derived terminal path is re-run linearly through the real System.simulate(); non-trivial = partition in which a tie was broken and a run '
             'completed; additionally the step monitor of every line exploration (C02..C17) executes the same clock/at-most-once checks')
@@ -68,10 +70,17 @@ class C01(Check):
 
     def jobs(self, tier):
         D = 4 if tier == 'quick' else 5
-        params = {'depth': D, 'sched': env_sched_c01(), 'assets': [1, 2], 'runs': [1, 2.5], 'system': True}
+        params = {'depth': D, 'sched': env_sched_c01(), 'assets': [1, 2], 'runs': [0, 1, 2.5], 'system': True}
         # every fork-derived terminal path (up to 4000 per partition) is re-run linearly through the real System.simulate()
-        return split_first('env', f'ENV-C01[D{D}]', params, e2=4000, max_states=3000000, max_seconds=3000,
+        jobs = split_first('env', f'ENV-C01[D{D}]', params, e2=4000, max_states=3000000, max_seconds=3000,
                            max_terminal_paths=4000)
+        # longer sequences over a reduced alphabet (two assets, one priority, plain actions, pause/unpause/cancel, run(1)):
+        # the queue must stay ordered after several pauses and resumptions of the same asset
+        D2 = 7 if tier == 'quick' else 8
+        deep = {'depth': D2, 'sched': [(1, 1, F, 'log', 0), (2.5, 1, F, 'log', 0), (1, 2, F, 'log', 0), (2.5, 2, PP, 'log', 0)],
+                'assets': [1, 2], 'runs': [1], 'ext': ['pause', 'unpause', 'cancel'], 'system': True}
+        jobs += split_first('env', f'ENV-C01deep[D{D2}]', deep, e2=300, max_states=5000000, max_seconds=3000)
+        return jobs
 
 
 @check
@@ -100,7 +109,7 @@ class C07(Check):
         # longer sequences over a reduced alphabet (two assets, one priority, plain actions)
         D2 = 7 if tier == 'quick' else 9
         deep = {'depth': D2, 'sched': [(1, 1, F, 'log', 0), (2.5, 1, F, 'log', 0), (1, 2, F, 'log', 0), (2.5, 2, F, 'log', 0)],
-                'assets': [1, 2], 'runs': [1], 'ext': ['pause', 'unpause', 'cancel']}
+                'assets': [1, 2], 'runs': [1], 'ext': ['pause', 'unpause', 'cancel'], 'weights': 'dec'}
         jobs += split_first('env', f'ENV-C07deep[D{D2}]', deep, e2=200, max_states=5000000, max_seconds=3000)
         return jobs
 
@@ -108,7 +117,7 @@ class C07(Check):
 RM_ADDS = [['a', 1], ['a', -1], ['a', -2], ['b', 1], ['b', -1], ['n', 1], ['n', -3], ['a', 0]]
 RM_REQUESTS = [{'a': 1}, {'a': 2}, {'a': 1, 'b': 1}, {'b': 1, 'a': 2}, {'a': 0}, {}, {'a': 1, 'b': -1}, {'b': -1, 'a': 1},
                {'a': -1}, {'zz': 1}, {'a': 1, 'zz': 0}, {'a': 1, 'zz': 1}]
-RM_RELEASES = [None, {'a': 1}, {'a': 5}, {'zz': 1}, {'a': 1, 'zz': 0}, {'a': -1}, {'a': 0}, {'b': 1}, {'a': 1, 'b': 5}]
+RM_RELEASES = [None, {'a': 1}, {'a': 5}, {'zz': 1}, {'a': 1, 'zz': 0}, {'a': -1}, {'a': 0}, {'b': 1}, {'a': 1, 'b': 5}, {}]
 
 
 @check
@@ -160,10 +169,14 @@ class C10(Check):
         p2 = dict(params)
         p2['prefix'] = [['reserve', 1], ['add', 1], ['advance']]
         jobs += split_first('rmwait', f'RMWAIT-C10over[D{D}]', p2, e2=50, max_states=3000000, max_seconds=3000)
+        # requests with a zero amount of a resource that was never defined / is over-committed
+        p3 = {'depth': D, 'adds': [['a', 1], ['a', -1]], 'requests': [{'a': 1}, {'a': 1, 'zz': 0}, {'a': 0, 'b': 1}],
+              'pools': [['a', 1], ['b', 1]], 'kinds': ['noop', 'take']}
+        jobs += split_first('rmwait', f'RMWAIT-C10zero[D{D}]', p3, e2=50, max_states=3000000, max_seconds=3000)
         return jobs
 
 
-MAINT_TARGETS = [{'table': {'x': [1, [1], 3], 'y': [0, [0], 0]}},
+MAINT_TARGETS = [{'table': {'x': [1, [1], 3], 'y': [0, [0], 0]}, 'nested': {'end:x': [1, 'y']}},
                  {'table': {'x': [2, [1.5, 1], 0], 'y': [1, [1], 0], 'big': [5, [1], 0]}},
                  {'table': {'x': [1, [0], 3], 'y': [1, [0.5], 0]}, 'nested': {'start:x': [0, 'y'], 'end:y': [2, 'y']}}]
 MAINT_REQUESTS = [[0, 'x'], [0, 'y'], [1, 'x'], [1, 'y'], [1, 'big'], [2, 'x'], [2, 'y']]
